@@ -41,9 +41,34 @@ def _apply(sources, edits):
     return out
 
 
+def _reformat(sources):
+    import ast
+    return {p: (ast.unparse(ast.parse(t)) if p.endswith('.py') else t) for p, t in sources.items()}
+
+
+def _rename_solver(sources):
+    out = dict(sources)
+    p = 'gearpy/solver.py'
+    if p not in out:
+        return None
+    for a, b in (('_compute_angular_position_and_speed', '_kinematics'), ('_check_powertrain_is_locked', '_lock_logic'),
+                 ('_compute_locked_powertrain_angular_speed_and_acceleration', '_hold'), ('_time_integration', '_step'),
+                 ('_compute_load_torque', '_loads'), ('__powertrain_is_locked', '__held'), ('_update_time_variables', '_record'),
+                 ('__powertrain_inertia_moment', '__jeq')):
+        out[p] = out[p].replace(a, b)
+    return out
+
+
+GENERIC = {'generic:reformat-all-sources (ast.unparse, comments and layout dropped)': _reformat,
+           'generic:rename-solver-helpers-and-fields': _rename_solver}
+
+
 def _run_one(variant):
     from checks.run import run_property
-    src = _apply(_SOURCES, variant['edits'])
+    if variant.get('generic'):
+        src = GENERIC[variant['name']](_SOURCES)
+    else:
+        src = _apply(_SOURCES, variant['edits'])
     if src is None:
         return variant['name'], 'skipped', [], []
     try:
@@ -61,6 +86,7 @@ def _init(sources, pid):
 
 def run_battery(pid, sources, seed, base_rep):
     variants = list(CATALOGUE.get(pid, []))
+    variants += [{'name': n, 'kind': 'benign', 'edits': [], 'generic': True} for n in GENERIC]
     rnd = random.Random(seed)
     rnd.shuffle(variants)
     base_keys = set(base_rep.violation_keys())
